@@ -125,6 +125,7 @@ func vLexLE(a, b weight) bool {
 //@   call append#2 assert selectors[0].specificity == specificity && selectors[0].pseudoType == "" && selectors[0].pageType == pageType
 //@   call append#3 assert selectors[0].specificity == specificity && selectors[0].pageType == pageType
 //@   unclaimed call-*-pre1 "token lists held in parsed rules contain no nil token: a data invariant of the parser's output that is not tracked through Compound values"
+//@   unclaimed call-parsePageSelectors@1-pre2 "function-block arguments produced by the tokenizer contain no nil token and no identifier or number with an empty representation: a data invariant of the parser's output that is not tracked through Compound values"
 
 // @page selector parsing never panics on any prelude (C07): invalid selectors give nil.
 // vPreludeTok: what the tokenizer guarantees of the prelude (assumed here): no nil token,
